@@ -181,7 +181,7 @@ func ValidQuotedSpec(utf8ok bool, s string) bool {
 }
 
 //@ func (enc *Encoder) validQuoted(s string) (result bool)
-//@   props C18 C01
+//@   props C18:post,inv-init,inv-step,terminates,bounds C01:post,inv-init,inv-step,terminates,bounds
 //@   ensures result == ValidQuotedSpec(enc.QuotedUTF8, s)
 //@   loop 0 vars (i int)
 //@   loop 0 invariant 0 <= i && i <= len(s) && len(s) <= 4096
@@ -240,7 +240,7 @@ func FlagGrammar(s string) bool {
 }
 
 //@ func isValidFlag(s string) (result bool)
-//@   props C01
+//@   props C01:post,inv-init,inv-step,terminates,bounds
 //@   ensures result == FlagGrammar(s)
 //@   loop 0 vars (i int)
 //@   loop 0 invariant 0 <= i && i <= len(s)
@@ -291,5 +291,5 @@ func FlagGrammar(s string) bool {
 //
 //@ func (dec *Decoder) Literal(ptr *string) (result bool)
 //@   modifies ptr
-//@   ensures __called("CheckBufferedLiteralFunc") && __failed("CheckBufferedLiteralFunc") ==> !result && dec.err != nil
+//@   ensures[C04] __called("CheckBufferedLiteralFunc") && __failed("CheckBufferedLiteralFunc") ==> !result && dec.err != nil
 
